@@ -150,7 +150,7 @@ func buildPE(l peLayout, fillID string) *peImage {
 	if l.slack > 0 {
 		img.regions = append(img.regions, peRegion{"slack", sectab + 40*n, soh})
 	}
-	if l.gap > 0 {
+	if l.gap > 0 && (l.gappos <= n || (n == 0 && l.gappos == 1)) {
 		// the gap sits in front of the section with file rank gappos
 		g0 := soh
 		for rank := 1; rank < l.gappos; rank++ {
